@@ -146,7 +146,9 @@ theorem decRev_fuel : âˆ€ (f g n : Nat), n < 10 ^ (f + 1) â†’ n < 10 ^ (g + 1) â
         have h2 : n / 10 < 10 ^ (g + 1) := by
           rw [Nat.div_lt_iff_lt_mul (by omega)]; rw [Nat.pow_succ] at hg; exact hg
         have := ih g (n / 10) h1 h2
-        rw [decRev.eq_2 (f + 1) n, decRev.eq_2 (g + 1) n]
+        have e : âˆ€ f n, decRev (f + 1) n = (48 + n % 10).toUInt8 :: (if n / 10 = 0 then [] else decRev f (n / 10)) :=
+          fun _ _ => rfl
+        rw [e (f + 1) n, e (g + 1) n]
         simp only [h0, if_false, this]
 
 theorem toDec_length_le (n k : Nat) (hk : n < 10 ^ (k + 1)) : (toDec n).length â‰¤ k + 1 := by
